@@ -1,4 +1,4 @@
-import Eliot.Proofs.SysSlots
+import Eliot.Proofs.SysPlaces
 /-!
 # C02 — every message is uniquely and contiguously placed by (task_uuid, task_level)
 
@@ -14,8 +14,21 @@ handles, `serialize_task_id`/`continue_task`, handlers, destination (un)registra
 every environment (failing destinations — whose failure reports consume positions too —,
 serializers, extractors), run from the initial state.  `.continueWith y` consumes the id `y`
 (each serialized id is continued at most once: the property's own precondition).
-The invariant behind all five theorems is `Sys.SInv` (`Eliot/Proofs/SysSlots.lean`); it is preserved
+The invariant behind the first five theorems is `Sys.SInv` (`Eliot/Proofs/SysSlots.lean`); it is preserved
 from *any* state satisfying it (`inv_preserved`).
+
+Run level (`offered_places_unique`, `offered_at_handed_out_places`, `buffered_at_handed_out_places`;
+`Eliot/Proofs/SysPlaces.lean`): the ghost fields `lastSlot` / `offeredAt` / `bufferAt` / `pendingAt` of the
+model record, for every destination call and every buffered message, the position the message was
+built for; the theorems say that what destinations are actually offered (`World.offered`, the
+observation log of the model) are dicts whose `task_uuid` / `task_level` fields are the place of a
+handed-out position, pairwise different per destination.  Listed hypotheses:
+* `p.placeOk`: no serializer declared in the program and no `add_global_fields` names `task_uuid` or
+  `task_level` (for serializers `_MessageSerializer.__init__` enforces it — `RESERVED_FIELDS`; a
+  global field of that name would overwrite the place of every message: `message.update(globals)`);
+* `dupAdd = false` (uniqueness only): no `Destinations.add` leaves a destination registered twice
+  (`dupAdd` is a ghost flag of the model, `hasDup` of the destination list at each `add`) — a
+  destination registered twice is called twice with each message.
 -/
 namespace Sys.C02
 open Sys
@@ -153,6 +166,98 @@ example : let w' := (execB Sys.C04.exEnv none {} exProg).1
 /-- message_at_slot: the message logged in action `a` (last = 1 after its start message) is at `[2]` -/
 example : let w : World := { acts := [{ uuid := 0, level := [], last := 1 }], nextUuid := 1 }
     ((w.buildLog 0 "m" []).2.get? "task_level" = some (.lvl [2])) ∧ (w.buildLog 0 "m" []).1.slots = [(0, 2)] := by
+  decide +kernel
+
+/-! ## Run level: what destinations are offered -/
+
+/-- **offered_places_unique**: no two messages offered to a destination during a run claim the same
+`(task_uuid, task_level)` — for every program whose serializers / global fields leave the two keys
+alone, every environment (failing destinations, their failure reports, failing serializers and
+extractors, buffering before the first `add_destinations` and the re-delivery of the buffer, remote
+continuations), provided no destination is ever registered twice. -/
+theorem offered_places_unique (env : Env) (p : Block) (hp : p.placeOk = true)
+    (hd : (execB env none {} p).1.dupAdd = false) :
+    ∀ d, ((offeredTo (execB env none {} p).1 d).map place).Nodup := by
+  obtain ⟨h1, h2⟩ := places_execB env p hp
+  exact offered_places_nodup h1 h2 hd
+
+/-- **offered_at_handed_out_places**: every message offered to any destination carries the uuid of
+an action of the run and a level that is this action's level extended by a position this action
+handed out — the place `slotKey` of a recorded slot. -/
+theorem offered_at_handed_out_places (env : Env) (p : Block) (hp : p.placeOk = true) :
+    let w' := (execB env none {} p).1
+    ∀ d m, (d, m) ∈ w'.offered → ∃ s ∈ w'.slots, ∃ a : Act, w'.acts[s.1]? = some a ∧
+      m.get? "task_uuid" = some (.uuid a.uuid) ∧ m.get? "task_level" = some (.lvl (a.level ++ [s.2])) ∧
+      slotKey w' s = some (a.uuid, a.level ++ [s.2]) := by
+  intro w' d m hm
+  obtain ⟨h1, h2⟩ := places_execB env p hp
+  obtain ⟨s, hs, a, ha, hu, hl⟩ := offered_at_slot h1 h2 d m hm
+  exact ⟨s, hs, a, ha, hu, hl, by unfold slotKey; rw [ha]; rfl⟩
+
+/-- the same for messages still waiting in the buffer at the end of the run -/
+theorem buffered_at_handed_out_places (env : Env) (p : Block) (hp : p.placeOk = true) :
+    let w' := (execB env none {} p).1
+    ∀ m ∈ w'.buffer, ∃ s ∈ w'.slots, ∃ a : Act, w'.acts[s.1]? = some a ∧
+      m.get? "task_uuid" = some (.uuid a.uuid) ∧ m.get? "task_level" = some (.lvl (a.level ++ [s.2])) := by
+  intro w' m hm
+  obtain ⟨h1, h2⟩ := places_execB env p hp
+  obtain ⟨s, hs, a, ha, hu, hl⟩ := buffered_at_slot h1 h2 m hm
+  exact ⟨s, hs, a, ha, hu, hl⟩
+
+/-! ### Non-vacuity
+Two messages and an action are logged (and buffered) before any destination exists;
+`add_destinations(0, 1)` re-delivers them — destination 0 fails on its 2nd call, which produces a
+failure report in a task of its own (uuid 2) —; then an action with a typed start serializer, a
+message whose serializer fails (`missing` is not a field: its position `[2]` is handed out but
+nothing is offered for it; a traceback `[3]` and `eliot:serialization_failure` `[4]` are), a
+serialized task id (`[5]`) continued remotely (`[5,1]`, `[5,2]`, `[5,3]`), the end message `[6]`. -/
+def exRun : Block :=
+  .cons (.log { mtype := "early" }) <|
+  .cons (.withAction false { atype := "a" } (.cons (.log { mtype := "m" }) .nil)) <|
+  .cons (.addDests [0, 1]) <|
+  .cons (.withAction false { atype := "b", sers := some ([("x", 0)], []), fields := [("x", .nat 1)] }
+    (.cons (.log { mtype := "bad", sers := some [("missing", 0)] })
+    (.cons (.serializeAs 7 none)
+    (.cons (.continueWith 7 { atype := "c" } (.cons (.log { mtype := "m" }) .nil))
+    .nil)))) .nil
+
+/-- the hypotheses hold; both destinations are offered the same twelve messages at twelve different places -/
+example : let w' := (execB Sys.C04.exEnv none {} exRun).1
+    exRun.placeOk = true ∧ w'.dupAdd = false ∧
+    (offeredTo w' 0).map place = (offeredTo w' 1).map place ∧
+    (offeredTo w' 1).map place =
+      [(some (.uuid 0), some (.lvl [1])), (some (.uuid 1), some (.lvl [1])), (some (.uuid 2), some (.lvl [1])),
+       (some (.uuid 1), some (.lvl [2])), (some (.uuid 1), some (.lvl [3])), (some (.uuid 3), some (.lvl [1])),
+       (some (.uuid 3), some (.lvl [3])), (some (.uuid 3), some (.lvl [4])), (some (.uuid 3), some (.lvl [5, 1])),
+       (some (.uuid 3), some (.lvl [5, 2])), (some (.uuid 3), some (.lvl [5, 3])), (some (.uuid 3), some (.lvl [6]))] ∧
+    (offeredTo w' 1).map (fun m => m.get? "message_type") =
+      [some (.str "early"), none, some (.str "eliot:destination_failure"), some (.str "m"), none, none,
+       some (.str "eliot:traceback"), some (.str "eliot:serialization_failure"), none, some (.str "m"), none, none] := by
+  decide +kernel
+
+/-- … each at the slot recorded for it (fourteen positions were handed out: `(3,2)` — the message whose
+serializer failed — and `(3,5)` — the task id — are never offered) -/
+example : let w' := (execB Sys.C04.exEnv none {} exRun).1
+    w'.slots = [(0, 1), (1, 1), (1, 2), (1, 3), (2, 1), (3, 1), (3, 2), (3, 3), (3, 4), (3, 5), (4, 1), (4, 2), (4, 3), (3, 6)] ∧
+    (w'.offeredAt.filter (fun x => x.1 == 1)).map (fun x => x.2.2) =
+      [some (0, 1), some (1, 1), some (2, 1), some (1, 2), some (1, 3), some (3, 1), some (3, 3), some (3, 4),
+       some (4, 1), some (4, 2), some (4, 3), some (3, 6)] := by
+  decide +kernel
+
+/-- buffered_at_handed_out_places: without destinations the messages wait in the buffer, at their places -/
+example : let w' := (execB Sys.C04.exEnv none {} (.cons (.log { mtype := "early" }) (.cons (.log { mtype := "m" }) .nil))).1
+    w'.buffer.map place = [(some (.uuid 0), some (.lvl [1])), (some (.uuid 1), some (.lvl [1]))] ∧
+    w'.slots = [(0, 1), (1, 1)] := by
+  decide +kernel
+
+/-- the hypotheses are needed: a global field named `task_level` makes every message claim the same
+place, and a destination registered twice is offered every message twice -/
+example :
+    ¬ ((offeredTo (execB Sys.C04.exEnv none {} (.cons (.addDests [1]) (.cons (.addGlobals [("task_level", .nat 0)])
+        (.cons (.withAction false { atype := "a" } (.cons (.log { mtype := "m" }) .nil)) .nil)))).1 1).map place).Nodup ∧
+    ¬ ((offeredTo (execB Sys.C04.exEnv none {} (.cons (.addDests [1, 1]) (.cons (.log { mtype := "m" }) .nil))).1 1).map
+        place).Nodup ∧
+    (execB Sys.C04.exEnv none {} (.cons (.addDests [1, 1]) (.cons (.log { mtype := "m" }) .nil))).1.dupAdd = true := by
   decide +kernel
 
 end Sys.C02
